@@ -67,6 +67,19 @@ static void rec_gen_misc(prng_t* g, int nrand) {
     size_t info = 0, ns = mi_segment_calculate_slices(req, &info);
     printf("G mi_segment_calculate_slices %llu = %llu %llu\n", U(req), U(ns), U(info));
   }
+  // arena ids (int) and arena block arithmetic; signed values are printed as their 64-bit two's complement
+  for (int i = 0; i < nrand / 8; i++) {
+    int id = (i < 300 ? i - 100 : (int)prng_next(g));
+    int req = (i % 3 == 0 ? 0 : i % 3 == 1 ? id : (int)prng_below(g, 140));
+    if (id < INT32_MAX) printf("G mi_arena_id_index %llu = %llu\n", U((long long)id), U(mi_arena_id_index(id)));
+    size_t ai = prng_below(g, MI_MAX_ARENAS);
+    printf("G mi_arena_id_create %llu = %llu\n", U(ai), U((long long)mi_arena_id_create(ai)));
+    printf("G mi_arena_id_is_suitable %llu %d %llu = %d\n", U((long long)id), i % 2, U((long long)req), mi_arena_id_is_suitable(id, i % 2, req) ? 1 : 0);
+    size_t sz = prng_sized(g);
+    printf("G mi_block_count_of_size %llu = %llu\n", U(sz), U(mi_block_count_of_size(sz)));
+    printf("G mi_arena_block_size %llu = %llu\n", U(sz), U(mi_arena_block_size(sz)));
+  }
+  printf("G _mi_arena_id_none = %llu\n", U((long long)_mi_arena_id_none()));
   // mi_bitmap_mask_: every (count, bitidx) with count + bitidx <= 64 (its contract), count 0 and >= 64 included
   for (size_t count = 0; count <= MI_BITMAP_FIELD_BITS + 1; count++)
     for (size_t bitidx = 0; bitidx + count <= MI_BITMAP_FIELD_BITS || (count > MI_BITMAP_FIELD_BITS && bitidx == 0); bitidx++)
